@@ -241,28 +241,33 @@ def completeState (cfg : Cfg) (st : St) (c : Cmd) (s : Status) : St :=
     else st
   | _ => st
 
+/-- resp-text-code of a tagged reply that is stored in the command: APPENDUID -/
+def applyCode (code : Code) (c : Cmd) : Cmd :=
+  match code, c.kind with
+  | .appendUid v u, .append => setData (fun d => { d with appendUid := some (v, u) }) c
+  | _, _ => c
+
+/-- LOGIN ok without [CAPABILITY]: "these commands invalidate the capabilities" → setCaps(nil) -/
+def noteCaps (st : St) (s : Status) (code : Code) (k : Kind) : St :=
+  match s, code, k with
+  | .ok, .caps _, _ => st
+  | .ok, _, .login => { st with wantCap := true }
+  | _, _, _ => st
+
 /-- readResponseTagged -/
 def stepTagged (cfg : Cfg) (st : St) (tag : Nat) (s : Status) (code : Code) : St :=
   match removeTag tag st.pending with
   | none => closeAll cfg st                 -- "received tagged response with unknown tag"
   | some (c, rest) =>
-    -- resp-text-code handling
-    let c := match code, c.kind with
-      | .appendUid v u, .append => setData (fun d => { d with appendUid := some (v, u) }) c
-      | _, _ => c
+    let c := applyCode code c
     -- completeCommand: done channel, cancel the continuation request, state switch
-    let wasBlocked := st.blocked = some tag
-    let st := { st with pending := rest, done := st.done ++ [finish c s code.id],
-                        blocked := if wasBlocked then none else st.blocked }
-    let st := completeState cfg st c s
-    -- these commands invalidate the capabilities
-    let st := match s, code, c.kind with
-      | .ok, .caps _, _ => st
-      | .ok, _, .login => { st with wantCap := true }
-      | _, _, _ => st
+    let wasBlocked := decide (st.blocked = some tag)
+    let st1 : St := { st with pending := rest, done := st.done ++ [finish c s code.id],
+                              blocked := if st.blocked = some tag then none else st.blocked }
+    let st2 := noteCaps (completeState cfg st1 c s) s code c.kind
     -- the command method, woken by the cancelled continuation request, reaches flush():
     -- the encoder error is the command's *imap.Error (NO/BAD) or "cancelled" (OK)
-    if wasBlocked && (s = .ok || cfg.legacyFlush) then closeAll cfg st else st
+    if wasBlocked && (s = .ok || cfg.legacyFlush) then closeAll cfg st2 else st2
 
 /-- beginCommand ... end / flush for a command without synchronising literal -/
 def stepSubmit (cfg : Cfg) (st : St) (k : Kind) (blocks : Bool) : St :=
@@ -272,6 +277,16 @@ def stepSubmit (cfg : Cfg) (st : St) (k : Kind) (blocks : Bool) : St :=
   if st.closed then closeAll cfg st          -- the write fails: flush → closeWithError
   else if blocks then { st with blocked := some tag }
   else st
+
+def setPending (st : St) (p : List Cmd) : St := { st with pending := p }
+
+def addUni (st : St) (u : Uni) : St := { st with uni := st.uni ++ [u] }
+
+/-- `if c.state == selected { c.mailbox = c.mailbox.copy(); c.mailbox.X = ... }`. (The Go code
+    dereferences c.mailbox: state == selected implies mailbox != nil — setState and the SELECT
+    case of completeCommand keep that; theorem `selected_has_mailbox`.) -/
+def updMbox (st : St) (f : Mbox → Mbox) : St :=
+  if st.state = .selected then { st with mbox := st.mbox.map f } else st
 
 /-- readResponseData and the handle* functions; readContinueReq -/
 def stepOpen (cfg : Cfg) (st : St) : Ev → St
@@ -291,70 +306,58 @@ def stepOpen (cfg : Cfg) (st : St) : Ev → St
   | .tagged tag s code => stepTagged cfg st tag s code
   | .exists_ n =>
     match updFirst isSelect (setData fun d => { d with num := n }) st.pending with
-    | some p => { st with pending := p }
-    | none =>
-      let st := match st.state, st.mbox with
-        | .selected, some mb => { st with mbox := some { mb with num := n } }
-        | _, _ => st
-      { st with uni := st.uni ++ [.exists_ n] }
+    | some p => setPending st p
+    | none => addUni (updMbox st fun mb => { mb with num := n }) (.exists_ n)
   | .recent _ => st
   | .expunge n =>
-    let st := match st.state, st.mbox with
-      | .selected, some mb => if mb.num > 0 then { st with mbox := some { mb with num := mb.num - 1 } } else st
-      | _, _ => st
+    let st := updMbox st fun mb => { mb with num := mb.num - 1 }   -- guarded by NumMessages > 0
     match updFirst isExpunge (setData fun d => { d with items := d.items ++ [n] }) st.pending with
-    | some p => { st with pending := p }
-    | none => { st with uni := st.uni ++ [.expunge n] }
+    | some p => setPending st p
+    | none => addUni st (.expunge n)
   | .flags fs =>
-    let st := match st.state, st.mbox with
-      | .selected, some mb =>
-        if cfg.legacyFlags then { st with mbox := some { mb with perm := fs } }
-        else { st with mbox := some { mb with flags := fs } }
-      | _, _ => st
+    let st := updMbox st fun mb => if cfg.legacyFlags then { mb with perm := fs } else { mb with flags := fs }
     match updFirst isSelect (setData fun d => { d with flags := fs }) st.pending with
-    | some p => { st with pending := p }
-    | none => { st with uni := st.uni ++ [.flags fs] }
+    | some p => setPending st p
+    | none => addUni st (.flags fs)
   | .permFlags fs =>
-    let st := match st.state, st.mbox with
-      | .selected, some mb => { st with mbox := some { mb with perm := fs } }
-      | _, _ => st
+    let st := updMbox st fun mb => { mb with perm := fs }
     match updFirst isSelect (setData fun d => { d with perm := fs }) st.pending with
-    | some p => { st with pending := p }
-    | none => { st with uni := st.uni ++ [.perm fs] }
+    | some p => setPending st p
+    | none => addUni st (.perm fs)
   | .uidNext n =>
     match updFirst isSelect (setData fun d => { d with uidNext := n }) st.pending with
-    | some p => { st with pending := p }
+    | some p => setPending st p
     | none => st
   | .uidValidity n =>
     match updFirst isSelect (setData fun d => { d with uidValidity := n }) st.pending with
-    | some p => { st with pending := p }
+    | some p => setPending st p
     | none => st
   | .fetch m =>
     match updFirst (wantsFetch m) (recvFetch m) st.pending with
-    | some p => { st with pending := p }
-    | none => { st with uni := st.uni ++ [.fetch m] }
+    | some p => setPending st p
+    | none => addUni st (.fetch m)
   | .closedCode => { st with state := .auth, mbox := none }
   | .info => st
   | .byeClose => closeAll cfg st            -- BYE itself changes nothing; EOF → closeWithError
   | .list m =>
     match updFirst (wantsList m) (fun c => recvList c m) st.pending with
-    | some p => { st with pending := p }
+    | some p => setPending st p
     | none => st
   | .status m n =>
     match updFirst (isStatusOf m) (setData fun d => { d with status := some (m, n) }) st.pending with
-    | some p => { st with pending := p }
+    | some p => setPending st p
     | none => st
   | .search nums =>
     match updFirst isSearch (setData fun d => { d with items := nums.foldl (fun acc n => addNum n acc) d.items }) st.pending with
-    | some p => { st with pending := p }
+    | some p => setPending st p
     | none => st
   | .esearch tag _ nums =>
     match updFirst (esearchFor tag) (setData fun d => { d with items := nums }) st.pending with
-    | some p => { st with pending := p }
+    | some p => setPending st p
     | none => st
   | .capability caps =>
     match updFirst isCapability (setData fun d => { d with items := caps }) st.pending with
-    | some p => { st with pending := p }
+    | some p => setPending st p
     | none => st
 
 /-- after closeWithError nothing is read any more; command methods still run (and fail) -/
